@@ -595,15 +595,22 @@ def set_notebook_diff_targets(sources=True, outputs=True, attachments=True,
                               metadata=True, identifier=True, details=True):
     """Configure the notebook differs to include/ignore various changes."""
 
+    # The cell id and execution count are atomic values, so they never reach
+    # a differ of their own and must be filtered out of the diff of the cell
+    ignored_cell_keys = ()
+    if not identifier:
+        ignored_cell_keys += ('id',)
+    if not details:
+        ignored_cell_keys += ('execution_count',)
+
     config = {
         '/cells/*/source': not sources,
         '/cells/*/outputs': not outputs,
         '/cells/*/attachments': not attachments,
         '/metadata': not metadata,
-        '/cells/*/id': not identifier,
         '/cells/*/metadata': not metadata,
         '/cells/*/outputs/*/metadata': not metadata,
-        '/cells/*': False if details else ('execution_count',),
+        '/cells/*': ignored_cell_keys or False,
         '/cells/*/outputs/*': False if details else ('execution_count',),
     }
     set_notebook_diff_ignores(config)
